@@ -100,7 +100,7 @@ impl Prop for C04 {
          pipelined loads) against a fake Junos that injects one fault: every position of the \
          request sequence open / get-config x2 / load x N / commit / close-configuration / \
          close-session for N = 0..5 x every fault kind {rpc-error, truncated reply, wrong root, not \
-         XML, unknown message-id, close before the reply, close after the reply} is enumerated \
+         XML, unknown message-id, close before the reply, close after the reply, and at load positions the Junos result shapes: results with error and load-error-count, error followed by <ok/>, error followed by <ok></ok>, warning-error-warning-<ok/>} is enumerated \
          (plus the fault-free runs); policy contents are sampled. Load replies are withheld until \
          the last load has been received, so a failing load reply provably arrives after later \
          loads were sent. Non-trivial = a fault on a load with at least one later load already \
@@ -150,7 +150,7 @@ impl Prop for C04 {
             prop::collection::vec((any::<u16>().prop_map(|m| m & 0xfff), any::<u16>().prop_map(|m| m & 0xfff)), 0..5),
             0u8..3,
             any::<u16>(),
-            0usize..7,
+            0usize..FAULT_KINDS.len(),
             prop::bool::weighted(0.9),
         )
             .prop_map(|(managed, stale, at, kind, faulty)| {
